@@ -47,13 +47,13 @@ for _f, _n in (("N1", 10), ("N2", 10), ("N3", 10), ("N4", 10), ("N5", 8), ("N6",
 for _f, _n in (("P1", 10), ("P2", 6), ("P3", 4), ("P4", 8), ("P5", 15), ("P6", 8), ("P7", 12), ("P8", 2)):
     reg(_f, getattr(pairing, "rule_" + _f), _n)
 
-for _f, _n in (("B1", 25), ("B2", 20), ("B3", 5)):
+for _f, _n in (("B1", 25), ("B1d", 15), ("B2", 20), ("B3", 5)):
     reg(_f, getattr(tables, "rule_" + _f), _n)
 
 for _f, _n in (("Q1", 20), ("Q2", 12), ("Q3", 4), ("Q4", 2), ("Q5", 1), ("C1", 15), ("C2", 5)):
     reg(_f, getattr(cue, "rule_" + _f), _n)
 
-for _f, _n in (("I1", 10), ("I2", 6), ("I3", 3), ("I4", 5), ("I5", 6), ("I6", 60), ("I7", 1), ("I8", 1), ("I9", 1), ("I10", 1), ("I11", 4), ("O1", 6), ("R1", 1)):
+for _f, _n in (("I1", 10), ("I2", 6), ("I3", 3), ("I4", 5), ("I5", 6), ("I6", 60), ("I7", 1), ("I8", 1), ("I9", 1), ("I10", 1), ("I11", 4), ("I12", 6), ("O1", 6), ("R1", 1)):
     reg(_f, getattr(isolation, "rule_" + _f), _n)
 
 for _f, _n in (("F1", 3), ("F2", 3), ("F3", 3), ("F4", 2), ("F5", 10), ("F6", 15)):
@@ -72,7 +72,7 @@ def _p(rules, explanation, extra_assumptions=()):
 NOT = " NOT decided (runtime remainder): "
 
 PROPS = {
-    "C01": _p(["L1a", "L2", "L8a", "S1", "S3", "S4p", "D1a", "D2", "D3a", "D4", "L7", "P7", "N1", "N9", "N5", "S5", "R1", "I6", "L9"],
+    "C01": _p(["L1a", "L2", "L8a", "S1", "S3", "S4p", "D1a", "D2", "D3a", "D4", "L7", "P7", "N1", "N9", "N5", "S5", "R1", "I6", "L9", "P1", "P2", "B1d"],
               "Structural necessary conditions of byte-exact AKAI export: evaluated construct layouts of partition/volume/file-entry/sample-header "
               "(offset, width, sign, endianness, data-window terms offset = header_end + 2*play_start, size = 2*(play_end - play_start)) equal the reviewed "
               "reference (L1a, L2); both sample type bytes reach the sample parser (L8a); chain walk shape (S1), address maps (S3), multi-sector split "
@@ -104,7 +104,7 @@ PROPS = {
               "fmt,[smpl],data; fmt values; destination encoding; output opened with builtin open(path,'wb') (L7); every data block trimmed to whole frames of that stream (P5); the frame size used for that trim is the one of the "
               "encoding the stream is constructed with (L8c: CDDA tracks are 2 x 2 bytes) and interleaving pads all channels to one length before emitting frames (P6)." + NOT +
               "that construct's Prefixed computes sizes correctly; smpl field value ranges; samples whose export raises."),
-    "C05": _p(["P1", "P8", "P2", "P3", "P6", "P5", "P7", "N3", "N7", "R1", "N5", "S9"],
+    "C05": _p(["P1", "P8", "P2", "P3", "P6", "P5", "P7", "N3", "N7", "R1", "N5", "S9", "I1"],
               "Decides the pairing clauses: marks and index keyed by export name only, every iteration path emits exactly one sample or skips a consumed one, partner marked iff "
               "combined (P1); by case analysis over the regex group (L|R) the first combine_stereo argument is always the L sample, partner name = stem+separator+other suffix, "
               "merged name = stem (P2); left streams then right streams, channel count = number of streams (P3); frame-major interleave / de-interleave idioms and end-padding (P6); "
@@ -124,7 +124,7 @@ PROPS = {
               "/ directory-run ends (D3), with the documented constants (D2); the Roland cluster stream the chains are read from has the recorded offset / size "
               "terms (L1r); a read spanning several sectors of the list takes them in list order, each exactly once (S4p); the table a file is "
               "resolved in is the one of its own partition - shared construct objects keep no table from an earlier parse (I6)." + NOT + "the exhaustive table x start enumeration; the AKAI reserved-run rule beyond D1/D3. Known finding G7."),
-    "C08": _p(["S5", "S7", "S3", "S4", "S6", "L2"],
+    "C08": _p(["S5", "S7", "S3", "S4", "S6", "L2", "D4"],
               "Obligations on the 2 base methods and 9 override methods implementing every view kind: read amount = min(end-position, size) (0 if negative), position advances by exactly "
               "that amount, seek = clamp(base(whence)+offset, 0, end), no subclass overrides read/seek/tell/readall (S5); window and reversed translations incl. alignment errors and the "
               "reshape/flip idiom (S7); address maps as affine terms on every path (S3); split accounting, first/middle/last piece indices, zero-size guard, length check (S4); re-sync "
@@ -134,7 +134,7 @@ PROPS = {
               "position on every normal exit (S8); MDF geometry 2352 = 16+2048+288, size = (n // 2352) * 2048 (S3); MDX window offset = sizeof(header), size = eof - offset; container "
               "header layouts (L1c, L2); ASCII probe and fallbacks (Q3); the 2048-byte user-data view reads through the same multi-sector split as every "
               "other sector stream (S4p); the FILE line of a cue sheet is recognised whatever the quoted name contains (Q1)." + NOT + "equality of ls/export across the five encodings."),
-    "C10": _p(["N6", "N1", "N2", "N4", "N7", "N8", "X1", "T1", "N10", "N11"],
+    "C10": _p(["N6", "N1", "N2", "N4", "N7", "N8", "X1", "T1", "N10", "N11", "I1"],
               "Decides: listing shows safe_name of every child and lookup compares the same attribute through the same normaliser (N6); safe names exist and are de-duplicated at every "
               "level (N1, N2, N7) and are blank-stripped (N4); every lookup failure inside parse_path is converted to ErrorInvalidPath, ls prints it and returns; whole path stripped, "
               "split on / and \\, trailing empty token dropped (N8); tokeniser loop terminates (T1)." + NOT +
@@ -169,7 +169,7 @@ PROPS = {
               "Decides: a short sector read is detected on every returning path of SectorStream._read (S4e) and ends the data stream instead of aborting (S9); partition scan leaves its "
               "loop on the first unparsable header (T1-STREAM-PARSE exits); length prefixes wrap the streamed data (L1w); unreadable files are skipped without stopping the remaining ones "
               "(I1); whole-frame blocks (P5); the last CDDA track runs to the end of the file as it is (L8c)." + NOT + "prefix equality; which files are reported for which cut."),
-    "C16": _p(["I2", "I3", "R1", "N2", "N7", "S6", "S8", "N5", "N4", "L8r", "I6", "I7", "I8", "I9"],
+    "C16": _p(["I2", "I3", "R1", "N2", "N7", "S6", "S8", "N5", "N4", "L8r", "I6", "I7", "I8", "I9", "I12"],
               "Decides: accumulating / position-dependent realisers run once under a flag they always set (I2); no write-capable call outside the export path, inputs opened read-only "
               "(I3, N5); data streams are rewound before every export (R1); both actions install both naming routines before traversing, so what an operation sees does not depend on which "
               "ran first (N2); names recomputed from raw names (N7); no read depends on where an earlier operation left the shared cursor (S6, S8); name sanitising is a function of (raw name, "
